@@ -10,7 +10,7 @@ from __future__ import annotations
 import collections
 import os
 
-from harness import c01_analysis_py2v, c01_gen, c01_run, common
+from harness import c01_analysis_py2v, c01_gen, c01_run, c01_tables_py2v, common
 from harness.common import clist
 
 PROPERTY = "C01"
@@ -19,13 +19,16 @@ SCRIPT_REQ = ["OV.Graph.Syntax", "OV.Script.Syntax", "OV.Script.Sets", "OV.Gen.A
 
 
 def regenerate(ctx):
+    """Translators: analysis.py -> Gen/Analysis.v; primop_map / Tensor operator methods / opset-18 type variables -> Gen/ScriptTables.v."""
     path = os.path.join(common.REPO, "onnxscript", "_internal", "analysis.py")
     try:
-        text = c01_analysis_py2v.translate(path)
+        ctx.gen("Analysis", c01_analysis_py2v.translate(path))
     except c01_analysis_py2v.Untranslatable as e:
         ctx.tie_broken("translator", "analysis.py", f"{e.args[0]}: {e.args[1]}")
-        return
-    ctx.gen("Analysis", text)
+    try:
+        ctx.gen("ScriptTables", c01_tables_py2v.translate(common.REPO))
+    except c01_tables_py2v.Untranslatable as e:
+        ctx.tie_broken("translator", "operator-tables", f"{e.args[0]}: {e.args[1]}")
 
 
 # ----------------------------------------------------------------------------- analysis correspondence
@@ -215,7 +218,7 @@ def classify(mech, which, text):
     return None
 
 
-def direct_oracle(ctx, d: Decorated, stats, n_sets, rng):
+def direct_oracle(ctx, d: Decorated, stats, n_sets, rng, worker):
     import numpy as np
     from harness import c01_interp
     from harness.c02 import model_has_attr_refs
@@ -235,17 +238,16 @@ def direct_oracle(ctx, d: Decorated, stats, n_sets, rng):
     timed_out = [False]
 
     def runner(m, feeds):
-        if not mech["while_break"]:
-            return c01_run.ort_run(m, feeds)
         if timed_out[0]:
             return None                 # one endless Loop per program is enough evidence
-        r = c01_run.ort_run_subprocess(m, feeds, timeout=8)
+        r = worker.run(m, feeds)
         if r[0] == "timeout":
             timed_out[0] = True
         return r
     flagged = False
     for k, (tensors, attrs) in enumerate(c01_interp.gen_inputs(prog, rng, n_sets)):
         stats["input_sets"] += 1
+        ctx.case(None)
         replay = {"source": d.source, "function": prog["name"], "input_index": k,
                   "tensors": [t.tolist() for t in tensors], "shapes": [list(t.shape) for t in tensors], "attrs": attrs}
         # ---- NumPy reading
@@ -318,6 +320,10 @@ def run(ctx):
     n_sets = 3 if quick else 4
     rng = ctx.rng
     programs = []
+    for prog in c01_gen.load_corpus():
+        programs.append((prog, c01_gen.to_source(prog)))
+        ctx.case(("corpus", prog["name"]))
+    n_corpus = len(programs)
     for i in range(n_prog):
         prog = c01_gen.gen_program(rng, i, straight=(i % 10 == 0))
         programs.append((prog, c01_gen.to_source(prog)))
@@ -336,6 +342,7 @@ def run(ctx):
         import random as _random
         cache = c01_run.OrtSessionCache()
         cache.__enter__()
+        worker = c01_run.OrtWorker(timeout=20)
         for d in decorated:
             if not d.accepted:
                 stats["refused"] += 1
@@ -343,7 +350,7 @@ def run(ctx):
             stats["accepted"] += 1
             if stats["accepted"] > n_oracle:
                 continue
-            flagged, mech = direct_oracle(ctx, d, stats, n_sets, _random.Random(input_seeds[d.idx]))
+            flagged, mech = direct_oracle(ctx, d, stats, n_sets, _random.Random(input_seeds[d.idx]), worker)
             for k, v in mech.items():
                 mech_count[k] += 1 if v else 0
             if flagged:
@@ -362,13 +369,16 @@ def run(ctx):
     finally:
         try:
             cache.__exit__(None, None, None)
+            worker.close()
+            stats["ort_timeouts"] = worker.timeouts
         except Exception:  # noqa: BLE001
             pass
         wd.close()
-    ctx.obligation("generator not degenerate: at least half of the programs are accepted by the decorator", stats["accepted"] * 2 >= n_prog)
+    ctx.obligation("generator not degenerate: at least half of the programs are accepted by the decorator", stats["accepted"] * 2 >= n_prog,
+                   f"accepted {stats['accepted']} of {n_prog + n_corpus}")
     ctx.cover(rule="typed random programs of the ONNX Script subset (see C02) x >= 3 input sets (rank 0-3, a size-1 and a size-0 dim, "
                    "0, +-1, negative, large, attribute values with and without defaults); four executions compared: eager, ModelProto on "
                    "onnxruntime, one-node model calling the FunctionProto, NumPy reading; distinct key = control-flow skeleton",
-              programs=n_prog, mechanisms_present=dict(mech_count), **dict(stats))
+              programs=n_prog, corpus_programs=n_corpus, mechanisms_present=dict(mech_count), **dict(stats))
     if ctx.tier == "thorough":
         ctx.coqchk(["Props.C01"])
